@@ -391,6 +391,9 @@ fn threads<W: Write>(out: &mut W, hi: usize, hist: &Value, out_path: &str) {
     let all: Mutex<Vec<u64>> = Mutex::new(Vec::new());
     let _ = cfb::verif::take_lock_events();
     cfb::verif::set_lock_tracing(true);
+    // schedule perturbation (hook): in two runs out of three the readers pause now and then while they hold the shared
+    // guard, which widens every window in which the handle thread meets a held lock
+    cfb::verif::set_lock_jitter(if seed % 3 == 0 { 0 } else { 120 });
     let main_tid = cfb::verif::current_thread_id();
     all.lock().unwrap().push(main_tid);
     let stalled = AtomicBool::new(false);
@@ -610,6 +613,7 @@ fn threads<W: Write>(out: &mut W, hi: usize, hist: &Value, out_path: &str) {
     if !stalled.load(Ordering::SeqCst) {
         dump(out, false);
     }
+    cfb::verif::set_lock_jitter(0);
     drop(h1);
     drop(h2);
     drop(spares);
